@@ -79,6 +79,7 @@ def _model_class(kind):
             "pfid": [PFIDMegacomplex, DecayMegacomplex],
             "artifact": [CoherentArtifactMegacomplex, DecayMegacomplex],
             "spectral": [SpectralMegacomplex],
+            "spectralds": [SpectralMegacomplex],
         }[kind]
         _MODEL_CLASSES[kind] = Model.create_class_from_megacomplexes(mcs)
     return _MODEL_CLASSES[kind]
@@ -108,24 +109,31 @@ def build(case, decay_rate=None):
             mc["width"] = P(case["width"])
         md["megacomplex"] = {case.get("label", "m"): mc}
         ds["megacomplex"] = [case.get("label", "m")]
-    elif kind == "spectral":
-        shapes, shape_items = {}, {}
-        for i, (comp, typ, amp, loc, width, skew) in enumerate(case["shapes"]):
-            name = f"sh{i}"
-            shapes[comp] = name
-            if typ in ("one", "zero"):
-                shape_items[name] = {"type": typ}
-            else:
-                it = {"type": "gaussian" if typ == "gaussian" else "skewed-gaussian",
-                      "location": P(loc), "width": P(width)}
-                if amp is not None:
-                    it["amplitude"] = P(amp)
-                if typ == "skewed":
-                    it["skewness"] = P(skew)
-                shape_items[name] = it
-        md["megacomplex"]["m"] = {"type": "spectral", "shape": shapes}
+    elif kind in ("spectral", "spectralds"):
+        shape_items = {}
+        megas = [case["shapes"]] if kind == "spectral" else case["megas"]
+        names = []
+        for k, shape_list in enumerate(megas):
+            shapes = {}
+            for i, (comp, typ, amp, loc, width, skew) in enumerate(shape_list):
+                name = f"sh{k}_{i}"
+                shapes[comp] = name
+                if typ in ("one", "zero"):
+                    shape_items[name] = {"type": typ}
+                else:
+                    it = {"type": "gaussian" if typ == "gaussian" else "skewed-gaussian",
+                          "location": P(loc), "width": P(width)}
+                    if amp is not None:
+                        it["amplitude"] = P(amp)
+                    if typ == "skewed":
+                        it["skewness"] = P(skew)
+                    shape_items[name] = it
+            mname = "m" if kind == "spectral" else f"m{k}"
+            names.append(mname)
+            md["megacomplex"][mname] = {"type": "spectral", "shape": shapes}
+        ds["megacomplex"] = names
         md["shape"] = shape_items
-    if kind in ("pfid", "spectral"):
+    if kind in ("pfid", "spectral", "spectralds"):
         if case.get("inverted"):
             ds["spectral_axis_inverted"] = True
         if case.get("scale", 1) != 1:
@@ -154,6 +162,14 @@ def run_real(case):
         dm, mc, _ = build(case)
         g = np.asarray(case["global_axis"], dtype=np.float64)
         m = np.asarray(case["model_axis"], dtype=np.float64)
+        if case["kind"] == "spectralds":
+            # dataset-level matrix: every megacomplex of the dataset, combined by clp label (the public static method the
+            # optimisation itself calls)
+            from glotaran.optimization.matrix_provider import MatrixProvider
+            with np.errstate(all="ignore"):
+                MatrixProvider.calculate_dataset_matrix(dm, g, m)
+                c = MatrixProvider.calculate_dataset_matrix(dm, g, m)
+            return "ok", [str(l) for l in c.clp_labels], np.asarray(c.matrix, dtype=np.float64)
         with np.errstate(all="ignore"):
             # An optimisation evaluates the megacomplex again and again on the *same* axis arrays, so what is observed is
             # the second of two evaluations on the same arrays (seeded change C07-1: the spectral axis scaled in place,
@@ -214,18 +230,23 @@ def case_line(case):
         return (f"artifact {enc(case.get('label', 'm'))} {int(case['order'])} "
                 f"{_opt(case.get('width'), lambda v: rat(float(v)))} {irf_proto(case.get('irf'))} "
                 f"{_rats(case['global_axis'])}")
-    if k == "spectral":
-        items = []
-        for comp, typ, amp, loc, width, skew in case["shapes"]:
-            if typ in ("one", "zero"):
-                items.append(lst([enc(comp), typ]))
-            elif typ == "gaussian":
-                items.append(lst([enc(comp), "gaussian", _opt(amp, lambda v: rat(float(v))), rat(float(loc)),
-                                  rat(float(width))]))
-            else:
-                items.append(lst([enc(comp), "skewed", _opt(amp, lambda v: rat(float(v))), rat(float(loc)),
-                                  rat(float(width)), rat(float(skew))]))
-        return f"spectral {bool_(bool(case.get('inverted')))} {rat(float(case.get('scale', 1)))} {lst(items)}"
+    if k in ("spectral", "spectralds"):
+        def shape_items(shape_list):
+            items = []
+            for comp, typ, amp, loc, width, skew in shape_list:
+                if typ in ("one", "zero"):
+                    items.append(lst([enc(comp), typ]))
+                elif typ == "gaussian":
+                    items.append(lst([enc(comp), "gaussian", _opt(amp, lambda v: rat(float(v))), rat(float(loc)),
+                                      rat(float(width))]))
+                else:
+                    items.append(lst([enc(comp), "skewed", _opt(amp, lambda v: rat(float(v))), rat(float(loc)),
+                                      rat(float(width)), rat(float(skew))]))
+            return lst(items)
+        if k == "spectral":
+            return f"spectral {bool_(bool(case.get('inverted')))} {rat(float(case.get('scale', 1)))} {shape_items(case['shapes'])}"
+        return (f"spectralds {bool_(bool(case.get('inverted')))} {rat(float(case.get('scale', 1)))} "
+                f"{lst(shape_items(m) for m in case['megas'])}")
     raise core.HarnessError(f"unknown case kind {k}")
 
 
